@@ -13,7 +13,7 @@ PROPS["C10"] = P(
     "distinct_nontrivial = number of distinct cells (word type, operation class, exact width or width class, backing/mode) whose case was non-degenerate: at least one element copied at "
     "width > 0; len > 1 for apply/chunks/unaligned; len > 1 with a non-zero element for reset; both bit values present for BitVec",
     dict(builds=["DBG", "UBC"]),
-    dict(builds=["DBG", "UBC", "ASAN", "MIRI"], shards={"MIRI": 8, "ASAN": 8}),
+    dict(builds=["DBG", "UBC", "ASAN", "MIRI"], shards={"MIRI": 12, "ASAN": 8}),
     hang="violation",
     level_text="Exploration: the real bulk operations are run on stratified inputs (every copy branch class, every width class x storage backing) and compared element by element with the obvious "
     "loops on a Vec<u128>/Vec<bool> model, in a debug build (overflow checks, debug assertions, std UB checks) and a release build with -Zub-checks; thorough adds ASan (raw unaligned reads) "
